@@ -1,5 +1,5 @@
 // govc:pkg functions
-// govc:bound |text| <= 4, |pattern| <= 4 over the alphabet {'%', '_', 'a', 'b'} (exhaustive: 341 x 341 pairs) through ExprBridge.EvaluateExpression("x LIKE 'p'")
+// govc:bound |text| <= 4, |pattern| <= 4 over the alphabet {'%', '_', 'a', 'b'} (exhaustive: 341 x 341 pairs) through ExprBridge.EvaluateExpression("x LIKE 'p'"); and |text|,|pattern| <= 3 through the column shapes d.x, d.inner.x (nested maps) and `col1`
 // Bounded stand-in (NOT a proof): the bridge's rewriting of LIKE into operators (convertLikeToFunction) followed by
 // evaluation, against the recursive definition of LIKE from the property statement.
 package functions
@@ -55,6 +55,44 @@ func TestGovcBounded_functions_bridge_like(t *testing.T) {
 		}
 	}
 	fmt.Printf("GOVC-BOUNDED-DONE functions_bridge_like cases=%d failures=%d\n", cases, fails)
+	if fails > 0 {
+		t.Fail()
+	}
+}
+
+// the same through column names that are not one plain word: a dotted path into a nested map and a backticked name
+func TestGovcBounded_functions_bridge_like_columns(t *testing.T) {
+	strs := govcAllStrings2("%_ab", 3)
+	bridge := GetExprBridge()
+	cases, fails := 0, 0
+	shapes := []struct {
+		col  string
+		data func(text string) map[string]any
+	}{
+		{"d.x", func(text string) map[string]any { return map[string]any{"d": map[string]any{"x": text}} }},
+		{"d.inner.x", func(text string) map[string]any {
+			return map[string]any{"d": map[string]any{"inner": map[string]any{"x": text}}}
+		}},
+		{"`col1`", func(text string) map[string]any { return map[string]any{"col1": text} }},
+	}
+	for _, sh := range shapes {
+		for _, pat := range strs {
+			expr := sh.col + " LIKE '" + pat + "'"
+			for _, text := range strs {
+				cases++
+				res, err := bridge.EvaluateExpression(expr, sh.data(text))
+				got, isBool := res.(bool)
+				want := govcLikeSpec2(text, 0, pat, 0)
+				if err != nil || !isBool || got != want {
+					fails++
+					if fails <= 6 {
+						fmt.Printf("GOVC-BOUNDED-FAIL functions_bridge_like_columns: %s = %q LIKE %q = %v (err %v), definition says %v\n", sh.col, text, pat, res, err, want)
+					}
+				}
+			}
+		}
+	}
+	fmt.Printf("GOVC-BOUNDED-DONE functions_bridge_like_columns cases=%d failures=%d\n", cases, fails)
 	if fails > 0 {
 		t.Fail()
 	}
